@@ -1657,10 +1657,7 @@ func runR72(c *Ctx) {
 			for g, sts := range stores {
 				key := fnm + "|fill " + accessPath(g.target)
 				pos := p.instrPos(sts[0])
-				if freshSlice(g.target, map[ssa.Value]bool{}) {
-					c.okTrivial(key, pos, "the slice is allocated in this function: skipped elements are zero")
-					continue
-				}
+				fresh := freshSlice(g.target, map[ssa.Value]bool{})
 				isStore := func(b *ssa.BasicBlock) bool {
 					for _, st := range sts {
 						if st.Block() == b {
@@ -1683,6 +1680,14 @@ func runR72(c *Ctx) {
 				}
 				if isStore(g.li.header) {
 					skipped = false
+				}
+				if fresh && skipped {
+					c.bad(key, pos, fmt.Sprintf("%s is filled element by element but an iteration can reach the next one without storing its element: that element silently stays zero (a case of the conversion that forgets its assignment)", accessPath(g.target)))
+					continue
+				}
+				if fresh {
+					c.okTrivial(key, pos, "allocated in this function and every iteration stores its element")
+					continue
 				}
 				if skipped {
 					c.bad(key, pos, fmt.Sprintf("%s may be a buffer handed in by the caller (not allocated here) and an iteration can reach the next one without storing element [key]: that element keeps what an earlier call or group left there", accessPath(g.target)))
